@@ -13,6 +13,8 @@ by TLC (spec/Trace_C08.tla) against the lexical law and the mechanism.
 (b) shape: see c08 shape cases below (Fill / argument mode rebuild containers with the same type
 and shape, including cyclic argument containers) -- GlomShape laws checked by TLC and replayed.
 """
+import json
+import zlib
 import random
 
 import glom
@@ -63,6 +65,20 @@ def worker(states):
                 if e['v'] != law:
                     why = 'probe at %s interpreted containers as %s, lexical mode is %s (%s)' % (e['p'], e['v'], law, e['raw'])
                     break
+        if not why and zlib.crc32(json.dumps(tree, sort_keys=True).encode()) % 4 == 0:
+            # on a deterministic quarter of the trees: the same probes made from inside the key spec of
+            # First (a spec evaluated under the scope -- and so in the mode -- of the position it stands at)
+            obs2 = frames.execute(tree, [], hook=False, flavour='firstkey')
+            out['n'] += 1
+            if obs2['out'] != run['out']:
+                why = 'probing from inside a First key: call outcome %s (%r), expected %s' % (obs2['out'], obs2['error'], run['out'])
+            elif [e['p'] for e in obs2['log']] != [e['p'] for e in run['log']]:
+                why = 'probing from inside a First key: probes ran %s, expected %s' % ([e['p'] for e in obs2['log']], [e['p'] for e in run['log']])
+            else:
+                for e, law in zip(obs2['log'], run['law']):
+                    if e['v'] != law:
+                        why = 'probe at %s inside a First key interpreted containers as %s, lexical mode is %s (%s)' % (e['p'], e['v'], law, e['raw'])
+                        break
         if why:
             out['bad'].append(dict(why='%s in %s' % (why, case['text']), case=case))
             continue
